@@ -262,7 +262,9 @@ fn has_nested_tap_hold(cfg: &str) -> bool {
     fn th_with_alias(n: &Node) -> bool {
         fn has_alias(n: &Node) -> bool {
             match n {
-                Node::Atom(a) => a.starts_with('@'),
+                // a transparent item can resolve to the very same tap-hold again when its layer is
+                // held more than once (e.g. layer-while-held of the base layer)
+                Node::Atom(a) => a.starts_with('@') || a == "_",
                 Node::List(l) => l.iter().any(has_alias),
             }
         }
